@@ -679,3 +679,30 @@ def an_id_of_zero_is_an_id(ctx):
                   '%s tests the recorded ids by their truth value (%s): ids that are all 0 count as "none recorded" and are dropped, so read_history(monitor, iter=True) no longer gives back the ids that were recorded'
                   % (fi.qualname, unparse(bad)[:40] if bad is not None else ''), fi, enclosing_stmt(bad) if bad is not None else fi.node)
     ctx.need(n >= 3, 'expected >= 3 functions of mystic.munge that handle ids, found %d' % n)
+
+
+@rule('C20.p', min_instances=2)
+def only_a_python_extension_is_stripped_from_a_file_name(ctx):
+    """read_history / read_import turn '<name>.py' (.pyc, .pyo, .pyd) into the module-style '<name>'; the regular expression that does so is a constant of the source and is judged as such: it must leave every other name alone - `\\.py*.$` also strips '.pt', '.px', '.p1' (".p, any number of y, any character"), so a LoggingMonitor log called run.pt could not be read back ("Module: run not found")"""
+    m = ctx.model.modules[MU]
+    n = 0
+    for q, fi in sorted(m.funcs.items()):
+        for c in walk_no_nested(fi.node):
+            if not (isinstance(c, ast.Call) and isinstance(c.func, ast.Attribute) and c.func.attr == 'sub' and len(c.args) >= 3 and isinstance(c.args[0], ast.Constant)
+                    and isinstance(c.args[0].value, str) and isinstance(c.args[1], ast.Constant) and c.args[1].value == ''):
+                continue
+            pat = c.args[0].value
+            if 'py' not in pat:
+                continue
+            n += 1
+            ctx.touch(fi)
+            try:
+                rx = re.compile(pat)
+            except re.error as ex:
+                raise AnalysisError('%s: the pattern %r does not compile: %s' % (fi.qualname, pat, ex))
+            strips = [e for e in ('.py', '.pyc', '.pyo') if rx.sub('', 'name' + e) == 'name']
+            keeps = [e for e in ('.pt', '.px', '.p1', '.pkl', '.txt', '.pyx_', '.spy', '.log', '') if rx.sub('', 'name' + e) == 'name' + e]
+            ctx.check(len(strips) == 3 and len(keeps) == 9, '%s#extension[%s]' % (fi.qualname, pat), 'strips .py / .pyc / .pyo and nothing else',
+                      '%s strips the "python extension" with %r, which also removes %s: a history file with such a name is looked for under a different name and cannot be read back'
+                      % (fi.qualname, pat, [e for e in ('.pt', '.px', '.p1', '.pkl', '.txt', '.pyx_', '.spy', '.log') if rx.sub('', 'name' + e) != 'name' + e]), fi, enclosing_stmt(c))
+    ctx.need(n >= 2, 'expected the two extension-stripping substitutions of mystic.munge (read_history, read_import), found %d' % n)
